@@ -90,7 +90,16 @@ def scenario(ch, cfg):
     ndefs = 2 + ch.draw(4, "ndefs")
     pool = list(FN_DEFS)
     defs = [pool.pop(ch.draw(len(pool), "def")) for _ in range(ndefs)]
-    boot = [f"{n}::{body}" for n, body, _ in defs] + ["gv::[1 2 3]", 'gs::"text"', "g0::100", "useg::{x+g0}", "nctr::0", "nil::{nctr::nctr+1;nctr*7}"]
+    boot = [f"{n}::{body}" for n, body, _ in defs] + ["gv::[1 2 3]", 'gs::"text"', "g0::100", "useg::{x+g0}", "nctr::0", "nil::{nctr::nctr+1;nctr*7}",
+                                                       "slow::{[gv];gv::x+1;yieldfn(0);gv}"]
+
+    def yieldfn(x):
+        # a server-side function that takes a while (the other loops and threads run meanwhile)
+        for _ in range(6):
+            w.yield_point("srv.slow")
+        return 0
+    env.server.klong["yieldfn"] = yieldfn
+    twin["yieldfn"] = lambda x: 0
     for line in boot:
         twin(line)
     for n, _, ar in defs:
@@ -155,7 +164,7 @@ def scenario(ch, cfg):
         cl(f"f::.cli({PORT})")
         for i in range(nops):
             last = i == nops - 1
-            k = ch.weighted([6, 4, 4, 4, 2, 2, 2, 2, 2, 1 if last else 0, 2], "op")
+            k = ch.weighted([6, 4, 4, 4, 2, 2, 2, 2, 2, 1 if last else 0, 2, 1, 1], "op")
             if k == 0:      # f("expr")
                 m = ch.weighted([5, 2, 2, 1, 1, 1], "expr")
                 if m == 0:
@@ -175,6 +184,13 @@ def scenario(ch, cfg):
                     # a response larger than 64 KiB: length field width, many fragments
                     expr = f"!{8300 + ch.draw(300, 'bigresp')}"
                     stats["probe_big_response"] += 1
+                    if ch.draw(12, "hugeresp") == 0:
+                        # a response of 17.6 MB (more than 16 MiB): only its length is compared on the client
+                        stats["probe_response_above_16MiB"] += 1
+                        both("eval-string", '#f("!2200000")', lambda: twin("#!2200000"))
+                        if violations or state.get("client_exc"):
+                            return
+                        continue
                 both("eval-string", f'f("{_q(expr)}")', lambda expr=expr: twin(expr))
             elif k == 1:    # f(:name,args)
                 name = ch.pick(sorted(state["fns"]), "fname")
@@ -374,6 +390,42 @@ def scenario(ch, cfg):
                 for nm in ("sa", "sb"):
                     if nm not in state["vars"]:
                         state["vars"].append(nm)
+            elif k == 11:   # equal text of different kinds, one after the other: a string, a character and a symbol stay what they are
+                stats["probe_equal_text_of_different_kinds"] += 1
+                trio = ['"a"', "0ca", ":a"]
+                for _ in range(3):
+                    expr = trio.pop(ch.draw(len(trio), "kindorder"))
+                    both("eval-string", f'f("{_q(expr)}")', lambda expr=expr: twin(expr))
+                    if violations or state.get("client_exc"):
+                        break
+            elif k == 12:   # a second client reads a server variable while this client's call is running on the server
+                stats["probe_second_connection_reads_during_a_call"] += 1
+                if "D" not in state:
+                    from sim.klnode import Node
+                    state["D"] = Node(w, net, "D")
+                    state["D"].klong(f"f::.cli({PORT})")
+                    state["D"].klong("d::.clid(f)")
+                D = state["D"]
+                res2 = {}
+                delay = ch.draw(10, "getdelay")
+
+                def getter():
+                    for _ in range(delay):
+                        w.yield_point("getter.wait")
+                    try:
+                        res2["v"] = ("ok", canon(D.klong("d?:gv")))
+                    except BaseException as e:   # noqa
+                        if isinstance(e, SystemExit):
+                            raise
+                        res2["v"] = ("exc", type(e).__name__)
+                g = w.spawn(f"getter{i}", getter)
+                # slow has a LOCAL named gv; the server's variable gv is [1 2 3] all along
+                both("fn-call", "f(:slow,(,42))", lambda: twin("slow(42)"))
+                w.block_until(lambda: g.done, "getter.join")
+                want2 = ("ok", canon(twin("gv")))
+                if res2.get("v") != want2:
+                    viol("C13:value-mismatch:dict-get-during-another-call", f"second connection d?:gv while f(:slow,42) was running on the server gave "
+                         f"{str(res2.get('v'))[:100]}; the server's gv is {str(want2)[:100]}")
             else:           # failing expression (only as the last operation)
                 expr = ch.pick(["1+", "nosuchfn(1)", "[1 2 3]@99"], "bad")
                 stats["probe_server_error_last"] += 1
